@@ -42,6 +42,8 @@ static int callno = 0;
 static struct jls_wr_s * wr = NULL;
 static struct jls_twr_s * twr = NULL;
 static struct jls_rd_s * rd = NULL;
+static struct jls_raw_s * raw = NULL;
+static long long raw_tell = 32;
 static char workdir[512];
 static int def_bits[65536];       // entry size of the signals this session defined successfully (0: unknown)
 
@@ -140,8 +142,8 @@ int main(int argc, char ** argv) {
             if (!strcmp(o, "open")) {
                 path_of("out", p, sizeof(p));
                 long l0 = live;
-                if (is_t) { if (twr || wr) continue; rc = jls_twr_open(&twr, p); if (rc) twr = NULL; }
-                else { if (twr || wr) continue; rc = jls_wr_open(&wr, p); if (rc) wr = NULL; }
+                if (is_t) { if (twr || wr || raw) continue; rc = jls_twr_open(&twr, p); if (rc) twr = NULL; }
+                else { if (twr || wr || raw) continue; rc = jls_wr_open(&wr, p); if (rc) wr = NULL; }
                 out[0] = l0; nout = 1;
                 memset(def_bits, 0, sizeof(def_bits));
             } else if ((is_t && !twr) || (!is_t && !wr)) {
@@ -206,7 +208,7 @@ int main(int argc, char ** argv) {
             if (!strcmp(o, "open")) {
                 // a[0]: 0 out, 1 missing, 2 garbage, 3 empty, 4 hdronly, 5 trunc
                 static const char * kinds[] = {"out", "missing", "garbage", "empty", "hdronly", "trunc"};
-                if (rd || wr || twr) continue;
+                if (rd || wr || twr || raw) continue;
                 path_of(kinds[a[0] % 6], p, sizeof(p));
                 out[0] = live; nout = 1;
                 rc = jls_rd_open(&rd, p);
@@ -284,11 +286,92 @@ int main(int argc, char ** argv) {
             } else {
                 continue;
             }
+        } else if (op[0] == 'x') {
+            // the raw chunk API (include/jls/raw.h)
+            if (!strcmp(o, "tag")) {
+                const char * nm = jls_tag_to_name((uint8_t) a[0]);
+                out[0] = nm ? (long long) strlen(nm) : -1; nout = 1;
+            } else if (!strcmp(o, "dt")) {
+                const char * nm = jls_dt_str((uint32_t) a[0]);
+                out[0] = nm ? (long long) strlen(nm) : -1; nout = 1;
+            } else if (!strcmp(o, "open")) {
+                // a[0]: file kind as ropen, 6 = a file of its own; a[1]: 0 "r", 1 "w", 2 "a", 3 "q", 4 ""
+                static const char * kinds[] = {"out", "missing", "garbage", "empty", "hdronly", "trunc", "rawout"};
+                static const char * modes[] = {"r", "w", "a", "q", ""};
+                if (rd || wr || twr || raw) continue;
+                path_of(kinds[a[0] % 7], p, sizeof(p));
+                out[0] = live;
+                rc = jls_raw_open(&raw, p, modes[a[1] % 5]);
+                out[1] = raw ? 1 : 0; nout = 2;     // (an unclosed file opens with JLS_ERROR_TRUNCATED and a usable instance)
+                raw_tell = 32;
+            } else if (!raw) {
+                continue;
+            } else if (!strcmp(o, "close")) {
+                rc = jls_raw_close(raw); raw = NULL;
+            } else if (!strcmp(o, "wr") || !strcmp(o, "wrhdr")) {
+                // a: tag meta payload_length
+                struct jls_chunk_header_s * h = (struct jls_chunk_header_s *) exact(sizeof(struct jls_chunk_header_s));
+                memset(h, 0, sizeof(*h));
+                h->tag = (uint8_t) a[0]; h->chunk_meta = (uint16_t) a[1]; h->payload_length = (uint32_t) a[2];
+                if (!strcmp(o, "wr")) {
+                    uint8_t * pl = exact((size_t) a[2]);
+                    rc = jls_raw_wr(raw, h, pl);
+                    __real_free(pl);
+                } else {
+                    rc = jls_raw_wr_header(raw, h);
+                }
+                out[0] = h->payload_prev_length; nout = 1;
+                __real_free(h);
+            } else if (!strcmp(o, "wrpay")) {
+                uint8_t * pl = exact((size_t) a[0]);
+                rc = jls_raw_wr_payload(raw, (uint32_t) a[0], pl);
+                __real_free(pl);
+            } else if (!strcmp(o, "rd") || !strcmp(o, "rdhdr")) {
+                struct jls_chunk_header_s * h = (struct jls_chunk_header_s *) exact(sizeof(struct jls_chunk_header_s));
+                if (!strcmp(o, "rd")) {
+                    uint8_t * pl = exact((size_t) a[0]);
+                    rc = jls_raw_rd(raw, h, (uint32_t) a[0], pl);
+                    __real_free(pl);
+                } else {
+                    rc = jls_raw_rd_header(raw, h);
+                }
+                if (!rc) { out[0] = h->tag; out[1] = h->payload_length; nout = 2; }
+                __real_free(h);
+            } else if (!strcmp(o, "rdpay")) {
+                uint8_t * pl = exact((size_t) a[0]);
+                rc = jls_raw_rd_payload(raw, (uint32_t) a[0], pl);
+                __real_free(pl);
+            } else if (!strcmp(o, "seek")) {
+                rc = jls_raw_chunk_seek(raw, a[0] == -3 ? raw_tell : a[0]);
+            } else if (!strcmp(o, "end")) {
+                rc = jls_raw_seek_end(raw);
+            } else if (!strcmp(o, "tell")) {
+                raw_tell = jls_raw_chunk_tell(raw); out[0] = raw_tell; nout = 1;
+            } else if (!strcmp(o, "scan")) {
+                rc = jls_raw_chunk_scan(raw);
+            } else if (!strcmp(o, "flush")) {
+                rc = jls_raw_flush(raw);
+            } else if (!strcmp(o, "next")) {
+                rc = jls_raw_chunk_next(raw);
+            } else if (!strcmp(o, "prev")) {
+                rc = jls_raw_chunk_prev(raw);
+            } else if (!strcmp(o, "inext")) {
+                rc = jls_raw_item_next(raw);
+            } else if (!strcmp(o, "iprev")) {
+                rc = jls_raw_item_prev(raw);
+            } else if (!strcmp(o, "ver")) {
+                union jls_version_u v = jls_raw_version(raw);
+                out[0] = v.s.major; nout = 1;
+            } else if (!strcmp(o, "bk")) {
+                out[0] = jls_raw_backend(raw) ? 1 : 0; nout = 1;
+            } else {
+                continue;
+            }
         } else if (!strcmp(op, "copy")) {
             // a[0]: source kind as ropen
             static const char * kinds[] = {"out", "missing", "garbage", "empty", "hdronly", "trunc"};
             char q[600];
-            if (rd || wr || twr) continue;
+            if (rd || wr || twr || raw) continue;
             path_of(kinds[a[0] % 6], p, sizeof(p));
             path_of("copy", q, sizeof(q));
             out[0] = live; nout = 1;
@@ -302,6 +385,7 @@ int main(int argc, char ** argv) {
     if (rd) jls_rd_close(rd);
     if (wr) jls_wr_close(wr);
     if (twr) jls_twr_close(twr);
+    if (raw) jls_raw_close(raw);
     fprintf(logf, "{\"e\":\"End\",\"live\":%ld}\n", live);
     fclose(logf);
     return 0;
